@@ -766,7 +766,7 @@ func TestC03(t *testing.T) {
 	if ev.Replay(t, rec, "selector", runSel) || ev.Replay(t, rec, "history", runHist) || ev.Replay(t, rec, "concurrent", runConc) {
 		return
 	}
-	ev.Check(t, rec, "selector", rec.Pick(10000, 300000), genSel, runSel)
-	ev.Check(t, rec, "history", rec.Pick(75, 2500), genHist, runHist)
-	ev.Check(t, rec, "concurrent", rec.Pick(10, 160), genConc, runConc)
+	ev.Check(t, rec, "selector", rec.Pick(10000, 200000), genSel, runSel)
+	ev.Check(t, rec, "history", rec.Pick(75, 500), genHist, runHist)
+	ev.Check(t, rec, "concurrent", rec.Pick(10, 30), genConc, runConc)
 }
